@@ -131,6 +131,45 @@ func runC16(c *Ctx) {
 		}
 	}
 
+	// ---------------- (a') keys whose Curve value is a wrapper type (e.g. from an HSM library) ----------------
+	for ci, cv := range curves {
+		alg := c16algs[ci]
+		n := refcrypto.OrderSize(cv)
+		key := gen.ECKey(cv, r)
+		wkey := &ecdsa.PrivateKey{PublicKey: ecdsa.PublicKey{Curve: wrappedCurve{cv}, X: key.X, Y: key.Y}, D: key.D}
+		for _, path := range []string{"native", "generic"} {
+			var ks cryptoSigner = wkey
+			if path == "generic" {
+				ks = refcrypto.WrapSigner{K: wkey}
+			}
+			signer, err := cose.NewSigner(alg, ks)
+			in := map[string]any{"curve": cv.Params().Name, "path": path + "/wrapped-curve-type"}
+			if err != nil {
+				rec.Event("wrapped-curve:NewSigner-refused")
+				continue
+			}
+			for i := 0; i < 20; i++ {
+				msg := []byte(fmt.Sprintf("wrapped %d", i))
+				var out []byte
+				if guard(rec, "ecdsa Sign (wrapped curve)", in, func() { out, err = signer.Sign(gen.Entropy, msg) }) {
+					break
+				}
+				rec.Eval(1)
+				rec.Event("wrapped-curve-signatures")
+				if err != nil {
+					// producing no signature is not a violation of the form rule
+					rec.Event("wrapped-curve:Sign-error")
+					continue
+				}
+				rec.Class(cv.Params().Name + "/" + path + "/wrapped-curve-type")
+				if len(out) != 2*n || !refcrypto.VerifyECDSADigest(&key.PublicKey, refcrypto.Digest(refcrypto.HashOf(int64(alg)), msg), out) {
+					rec.Violate("not-fixed-width", cv.Params().Name+"/"+path+"/wrapped-curve", fmt.Sprintf("signature is %d bytes (want %d) or not r||s of a valid (r,s): %s", len(out), 2*n, hexs(out)), in)
+					break
+				}
+			}
+		}
+	}
+
 	// ---------------- (b) native path ----------------
 	for ci, cv := range curves {
 		alg := c16algs[ci]
@@ -369,3 +408,6 @@ func runC16(c *Ctx) {
 	rec.Require("verifier:invalid-offered", 2000)
 	rec.RequireClasses(150)
 }
+
+// wrappedCurve is an elliptic.Curve of another Go type with the same parameters.
+type wrappedCurve struct{ elliptic.Curve }
